@@ -89,6 +89,11 @@ touched) in which
   other than ``staticmethod``, recursion, depth > 3) stay calls.
 * H-EXPR  a call of such a helper whose body is a single ``return E`` is replaced by ``E`` with the arguments
   substituted (refused if a name would be captured or shadowed).
+* H-FUNC  a statement whose value IS a call of such a helper (``t = self.__helper(a)``, ``t: T = ...``,
+  ``x[k] = _helper(a)``, ``return self.__helper(a)``) and whose helper is straight-line statements followed by ONE
+  final ``return E`` (no other ``return``) is replaced by the helper's statements (bound / renamed as for H-PROC)
+  followed by the statement with ``E`` in place of the call: a phase of a function that was moved into a private
+  helper which hands its result back is part of the function again.
 * H-ALIAS a local that is bound exactly once, to an attribute path rooted at ``self``
   (``defaults = self.__ingredients.parameter_defaults``), is replaced by that path at every use - unless the
   function assigns to a prefix of the path, or calls a method of an inner prefix (``self.__ingredients.reset()``)
@@ -243,6 +248,13 @@ class Flattener:
                     continue
                 except _Refuse:
                     pass
+            if isinstance(st, (ast.Assign, ast.AnnAssign, ast.Return)) and isinstance(st.value, ast.Call):
+                try:  # H-FUNC
+                    stmts, value = self._procedure(st.value, scope, depth, stack, want_value=True)
+                    st.value = value
+                    out.extend(stmts)
+                except _Refuse:
+                    pass
             out.append(st)
         return out
 
@@ -366,13 +378,21 @@ class Flattener:
         return e
 
     # --------------------------------------------------------------- H-PROC
-    def _procedure(self, call: ast.Call, scope, depth: int, stack: tuple) -> list[ast.stmt]:
+    def _procedure(self, call: ast.Call, scope, depth: int, stack: tuple, want_value: bool = False):
         g, params = self._helper(call, scope, depth, stack)
         bound = self._bind(call, g, params)
         body = [_clone(s) for s in _body_without_docstring(g.node)]
         for s in body:
             self._mark(s, g.module)
-        self._check_returns(body, in_loop=False)
+        if want_value:  # H-FUNC: statements + one final `return E`
+            if len(body) < 2 or not isinstance(body[-1], ast.Return) or body[-1].value is None:
+                raise _Refuse
+            if any(isinstance(n, ast.Return) for s in body[:-1] for n in ast.walk(s)):
+                raise _Refuse
+            if any(isinstance(n, ast.Lambda) for n in ast.walk(body[-1].value)):
+                raise _Refuse
+        else:
+            self._check_returns(body, in_loop=False)
         if any(isinstance(n, _UNSPLICEABLE) for s in body for n in ast.walk(s)):
             raise _Refuse
         own = _stored(body)
@@ -392,6 +412,11 @@ class Flattener:
             self.locals.add(names.get(n, n))
         self.used |= set(bound) | own
         body = self._block(body, g, depth + 1, (*stack, g.qual))
+        ret = None
+        if want_value:
+            ret = body.pop()  # still the final `return E` (statements spliced in front of it stay in the body)
+            if not isinstance(ret, ast.Return) or ret.value is None:
+                raise _Refuse
         body = _elim_returns(body)
         ren = _Rename(names)
         body = [ren.visit(s) for s in body]
@@ -401,6 +426,8 @@ class Flattener:
             head.append(ast.copy_location(ast.Assign(targets=[ast.copy_location(tgt, call)], value=_clone(arg), lineno=call.lineno), call))
         out = [*head, *body] or [ast.copy_location(ast.Pass(), call)]
         self.spliced.append(g.qual)
+        if want_value:
+            return [*head, *body], ren.visit(ret).value
         return out
 
     def _fresh(self, name: str) -> str:
